@@ -232,6 +232,7 @@ func CheckC17(c *Ctx) {
 	// MemStats.Mallocs must equal the number of calls. A block that shows more is re-walked (minimum of 3),
 	// and if the excess persists every call of the block is bracketed individually to name the configuration.
 	c17Walk(c)
+	c17ScoreWalk(c)
 	for _, x := range []float64{0, 0.05, 0.1, 3.9, 4.0, 5.4, 7.0, 8.9, 9.0, 10.0, -0.1, 10.1, 1e300, -1e300} {
 		for _, op := range probe.RatingOps(x) {
 			op.Arg = fstr(x)
@@ -244,7 +245,7 @@ func CheckC17(c *Ctx) {
 	c.Extra["toolchain"] = runtime.Version()
 	c.Extra["calls_per_measurement"] = n
 	c.SetReport(Report{
-		Rule:        "steady-state heap allocations per call measured with runtime.MemStats.Mallocs around " + fmt.Sprint(n) + " calls after " + fmt.Sprint(warm) + " warm-up calls, GOMAXPROCS(1), GC off, concrete methods called directly, results kept alive in package-level sinks; minimum over up to 4 repetitions (stray runtime allocations only add). Budget: successful ParseVector <= 1, Vector() == 1, Get/Set on a known metric (legal and illegal values), every scoring method, Rating, Nomenclature == 0. Also measured with MemStats read between a PRECEDING call (each of ~40 valid/invalid vectors per version, every error kind) and the measured call, so that an allocation pushed onto the next call by an earlier one (pool buffer not returned on an error path) is seen. EXHAUSTIVE WALK for Vector(): every configuration of the optional metrics of v2.0 (192,000), and in thorough of v3.0/v3.1 (221,184,000 each) and of v4.0's threat+environmental metrics (1,179,648,000; supplemental seeded per chunk) -- quick: 1 chunk in 25 / 64 -- visited in Gray-code order on a concrete object, allocations counted per block of 32,768 calls (must equal the number of calls; excess re-walked, then bracketed per call). Inputs: no optional metric, all, every optional metric alone x every value (incl. all U spellings) x 2 base backgrounds, canonical and with every X/ND written explicitly, all-but-one, seeded random subsets/spellings (v3 shuffled). evaluations = measured calls; distinct = distinct input vectors",
+		Rule:        "steady-state heap allocations per call measured with runtime.MemStats.Mallocs around " + fmt.Sprint(n) + " calls after " + fmt.Sprint(warm) + " warm-up calls, GOMAXPROCS(1), GC off, concrete methods called directly, results kept alive in package-level sinks; minimum over up to 4 repetitions (stray runtime allocations only add). Budget: successful ParseVector <= 1, Vector() == 1, Get/Set on a known metric (legal and illegal values), every scoring method, Rating, Nomenclature == 0. Also measured with MemStats read between a PRECEDING call (each of ~40 valid/invalid vectors per version, every error kind) and the measured call, so that an allocation pushed onto the next call by an earlier one (pool buffer not returned on an error path) is seen. EXHAUSTIVE WALK for Vector(): every configuration of the optional metrics of v2.0 (192,000), and in thorough of v3.0/v3.1 (221,184,000 each) and of v4.0's threat+environmental metrics (1,179,648,000; supplemental seeded per chunk) -- quick: 1 chunk in 25 / 64 -- visited in Gray-code order on a concrete object, allocations counted per block of 32,768 calls (must equal the number of calls; excess re-walked, then bracketed per call). EXHAUSTIVE SCORE WALK for the methods that must not allocate: one object per chunk driven by single legal Set calls through v2.0's 139,968,000 assignments (quick: 3 of 27 chunks), v3.x's 16,588,800 effective classes through base metrics (quick: 2 of 8 chunks) plus all defined Modified assignments over a decoy base x 216 temporal/requirement settings, v4.0's base x defined E/CR/IR/AR x MSI/MSA in {X,S} (34,012,224; quick 1 chunk in 4) and all 15,116,544 classes through Modified metrics over a decoy base (quick 1 in 4): after every step every scoring method (v4: Score, Nomenclature) is called, allocations per block of 32,768 steps must be 0 (excess re-walked, then bracketed per step and method). Inputs: no optional metric, all, every optional metric alone x every value (incl. all U spellings) x 2 base backgrounds, canonical and with every X/ND written explicitly, all-but-one, seeded random subsets/spellings (v3 shuffled). evaluations = measured calls; distinct = distinct input vectors",
 		Assumptions: []string{"a property of the compiled program: decided for the toolchain in this image (" + runtime.Version() + "), plain build (no -race: the race runtime makes sync.Pool drop Puts)"},
 	})
 	c.Finish()
@@ -272,6 +273,215 @@ func (g *grayState) next(radix []int) int {
 		g.foc[j+1] = j + 1
 	}
 	return j
+}
+
+// c17ScoreWalk is the exhaustive allocation walk for the methods that must not allocate at all: every scoring
+// method (and v4 Nomenclature), and the legal Set call that moves the walk. One concrete object per chunk is driven
+// through a whole grid of assignments in reflected Gray-code order (one Set per step); after every step all scoring
+// methods are called; heap allocations are counted per block of 32,768 steps and must be ZERO. A block with an
+// excess is re-walked (stray runtime allocations only add), then bracketed per step and per method to name the
+// assignment. Grids: v2.0 every assignment of all 14 metrics (139,968,000; quick: 3 of the 27 AV/AC/Au chunks);
+// v3.x every base x E x RL x RC x CR x IR x AR (16,588,800 = all effective classes through base metrics), plus every
+// defined Modified assignment over a decoy base x 216 temporal/requirement settings; v4.0 every base x defined
+// E, CR, IR, AR x MSI, MSA in {X, S} (34,012,224; quick 1 chunk in 4), plus every defined Modified assignment over a decoy
+// base x the 81 E/CR/IR/AR settings (15,116,544 = all effective classes through Modified metrics; quick 1 in 4).
+func c17ScoreWalk(c *Ctx) {
+	const block = 32768
+	type grid struct {
+		name    string
+		ver     int
+		pre     []int   // chunk prefix metrics
+		preVals [][]int // value indexes per prefix metric
+		walk    []int   // Gray-walked metrics
+		vals    [][]int // value indexes per walked metric
+		stride  int
+		decoy   bool // random base underneath (grids that walk Modified metrics)
+	}
+	idx := func(v *spec.Version, abvs ...string) []int {
+		var out []int
+		for _, a := range abvs {
+			out = append(out, v.Index(a))
+		}
+		return out
+	}
+	all := func(v *spec.Version, ms []int) [][]int {
+		var out [][]int
+		for _, m := range ms {
+			var l []int
+			for i := range v.Metrics[m].Values {
+				l = append(l, i)
+			}
+			out = append(out, l)
+		}
+		return out
+	}
+	defined := func(v *spec.Version, ms []int) [][]int {
+		out := all(v, ms)
+		for i := range out {
+			out[i] = out[i][1:]
+		}
+		return out
+	}
+	var grids []grid
+	{
+		v := spec.Versions[spec.V20]
+		pre := idx(v, "AV", "AC", "Au")
+		var walk []int
+		for m := 3; m < v.N(); m++ {
+			walk = append(walk, m)
+		}
+		grids = append(grids, grid{"v2-all-assignments", spec.V20, pre, all(v, pre), walk, all(v, walk), c.Pick(9, 1), false})
+	}
+	for _, vid := range []int{spec.V30, spec.V31} {
+		v := spec.Versions[vid]
+		pre := idx(v, "AV", "AC")
+		walk := idx(v, "PR", "UI", "S", "C", "I", "A", "E", "RL", "RC", "CR", "IR", "AR")
+		grids = append(grids, grid{"v" + v.Name + "-classes-through-base", vid, pre, all(v, pre), walk, all(v, walk), c.Pick(4, 1), false})
+		pre2 := idx(v, "MAV")
+		walk2 := idx(v, "MAC", "MPR", "MUI", "MS", "MC", "MI", "MA", "E", "RL", "RC", "CR", "IR", "AR")
+		vals2 := defined(v, walk2[:7])
+		vals2 = append(vals2, []int{0, 1}, []int{0, 2}, []int{0, 1}, []int{0, 1, 3}, []int{0, 1, 3}, []int{0, 1, 3})
+		grids = append(grids, grid{"v" + v.Name + "-modified-over-decoy-base", vid, pre2, defined(v, pre2), walk2, vals2, 1, true})
+	}
+	{
+		v := spec.Versions[spec.V40]
+		pre := idx(v, "AV", "AC", "AT")
+		walk := idx(v, "PR", "UI", "VC", "VI", "VA", "SC", "SI", "SA", "E", "CR", "IR", "AR", "MSI", "MSA")
+		vals := all(v, walk[:8])
+		vals = append(vals, defined(v, walk[8:12])...)
+		vals = append(vals, []int{0, 1}, []int{0, 1})
+		grids = append(grids, grid{"v4-base-x-threat-requirements-safety", spec.V40, pre, all(v, pre), walk, vals, c.Pick(4, 1), false})
+		pre2 := idx(v, "MAV", "MAC")
+		walk2 := idx(v, "MAT", "MPR", "MUI", "MVC", "MVI", "MVA", "MSC", "MSI", "MSA", "E", "CR", "IR", "AR")
+		grids = append(grids, grid{"v4-classes-through-modified", spec.V40, pre2, defined(v, pre2), walk2, defined(v, walk2), c.Pick(4, 1), true})
+	}
+	for _, g := range grids {
+		v := spec.Versions[g.ver]
+		r := c.Rand("score-walk", g.name)
+		nChunks := 1
+		for _, l := range g.preVals {
+			nChunks *= len(l)
+		}
+		radix := make([]int, len(g.walk))
+		for j := range g.walk {
+			radix[j] = len(g.vals[j])
+		}
+		off := r.Intn(g.stride)
+		var steps, excessBlocks, noisyBlocks int64
+		for ci := off; ci < nChunks && c.nviolA.Load() <= 20; ci += g.stride {
+			a := gen.KSparseAssign(r, v, 0)
+			k := ci
+			for j, m := range g.pre {
+				a[m] = uint8(g.preVals[j][k%len(g.preVals[j])])
+				k /= len(g.preVals[j])
+			}
+			for j, m := range g.walk {
+				a[m] = uint8(g.vals[j][0])
+			}
+			if v.ID == spec.V40 {
+				for mI, me := range v.Metrics {
+					if me.Group == spec.GSupp {
+						a[mI] = uint8(r.Intn(len(me.Values)))
+					}
+				}
+			}
+			wk, err := probe.NewWalker(g.ver, v.Canonical(a))
+			if err != nil {
+				c.Violate(Violation{Kind: "cannot-build-object", Version: v.Name, Steps: parseSteps(v.Canonical(a)), Expected: "accepted", Observed: err.Error()})
+				break
+			}
+			gs := &grayState{make([]int, len(radix)), make([]int, len(radix)+1), make([]int, len(radix))}
+			for j := range gs.foc {
+				gs.foc[j] = j
+			}
+			for j := range gs.dir {
+				gs.dir[j] = 1
+			}
+			walkBlock := func(gs *grayState, wk *probe.Walker, each func()) (n int, end bool) {
+				for n < block {
+					if each != nil {
+						each()
+					} else {
+						wk.Scores()
+					}
+					n++
+					j := gs.next(radix)
+					if j < 0 {
+						return n, true
+					}
+					m := g.walk[j]
+					wk.Set(v.Metrics[m].Abv, v.Metrics[m].Values[g.vals[j][gs.dig[j]]])
+				}
+				return n, false
+			}
+			done := false
+			for !done && c.nviolA.Load() <= 20 {
+				g0, w0 := gs.clone(), wk.Copy()
+				before := probe.Mallocs()
+				n, end := walkBlock(gs, wk, nil)
+				delta := int64(probe.Mallocs() - before)
+				done = end
+				steps += int64(n)
+				if delta == 0 {
+					continue
+				}
+				noisyBlocks++
+				best := delta
+				for try := 0; try < 3 && best != 0; try++ {
+					gg, ww := g0.clone(), w0.Copy()
+					b := probe.Mallocs()
+					walkBlock(gg, ww, nil)
+					if d := int64(probe.Mallocs() - b); d < best {
+						best = d
+					}
+				}
+				if best == 0 {
+					continue
+				}
+				excessBlocks++
+				gg, ww := g0.clone(), w0.Copy()
+				found := 0
+				cur := func() spec.Assign {
+					b := a.Clone()
+					for j, m := range g.walk {
+						b[m] = uint8(g.vals[j][gg.dig[j]])
+					}
+					return b
+				}
+				walkBlock(gg, ww, func() {
+					if found >= 3 {
+						return
+					}
+					for op := 0; op < ww.NScoreOps(); op++ {
+						m0 := int64(99)
+						for t := 0; t < 3 && m0 != 0; t++ {
+							b := probe.Mallocs()
+							ww.ScoreOp(op)
+							if d := int64(probe.Mallocs() - b); d < m0 {
+								m0 = d
+							}
+						}
+						if m0 != 0 {
+							found++
+							vec := v.Canonical(cur())
+							c.Violate(Violation{Kind: "allocation-budget-exceeded", Version: v.Name, Steps: append(parseSteps(vec), Step{Op: "score"}),
+								Expected: ww.ScoreOpName(op) + "(): 0 heap allocations for " + vec, Observed: fmt.Sprintf("%d (exhaustive score walk %s, block excess %d over %d steps)", m0, g.name, best, n), Detail: map[string]any{"op": ww.ScoreOpName(op), "workload": "exhaustive-score-walk"}})
+						}
+					}
+				})
+				if found == 0 {
+					c.Violate(Violation{Kind: "allocation-budget-exceeded", Version: v.Name, Steps: parseSteps(v.Canonical(a)), Expected: fmt.Sprintf("%d steps (one legal Set + every scoring method each) = 0 allocations", n), Observed: fmt.Sprintf("excess %d (minimum of 4 walks of the block; not attributable to a scoring method: the Set calls of the walk)", best), Detail: map[string]any{"workload": "exhaustive-score-walk", "grid": g.name}})
+				}
+			}
+		}
+		c.Evals += steps * int64(5)
+		c.Acc[62] += steps
+		c.Extra["score_walk_steps_"+g.name] = steps
+		c.Extra["score_walk_complete_"+g.name] = g.stride == 1
+		c.Extra["score_walk_blocks_with_confirmed_excess_"+g.name] = excessBlocks
+		c.Extra["score_walk_blocks_rewalked_"+g.name] = noisyBlocks
+		c.Floor("score walk steps "+g.name, steps, 100000)
+	}
 }
 
 func c17Walk(c *Ctx) {
